@@ -60,14 +60,22 @@ Norm(q) == LET g == Gcd(q[1], q[2]) IN <<q[1] \div g, q[2] \div g>>
 Mul(a, b) == Norm(<<a[1] * b[1], a[2] * b[2]>>)
 Trunc(q) == <<q[1] \div q[2], 1>>           \* int(): values are positive
 
-VARIABLES steps, val, scheduled, fnparams, h
-vars == <<steps, val, scheduled, fnparams, h>>
+VARIABLES steps, val, scheduled, fnparams, fnkind, h
+vars == <<steps, val, scheduled, fnparams, fnkind, h>>
+
+\* HOW a parameter that "is already a function" is given.  The preconditioner
+\* evaluates every callable as a schedule, so the scheduler must refuse every
+\* kind -- Refused does not depend on fnkind.  The kind only matters when the
+\* constructor has something to refuse, so it varies only there.
+FnKinds == {"lambda", "partial", "object", "method"}
 
 Init ==
     /\ steps = 0
     /\ val = [p \in PSet |-> Init0(p)]
     /\ scheduled \in SUBSET PSet
     /\ fnparams \in {{}, {"damping"}, {"lr", "inv_update_steps"}}
+    /\ fnkind \in (IF scheduled \cap fnparams # {} THEN FnKinds
+                   ELSE {"lambda"})
     /\ h = <<>>
 
 Refused == scheduled \cap fnparams # {}
@@ -75,7 +83,7 @@ Refused == scheduled \cap fnparams # {}
 PStep ==        \* preconditioner.step(): the step count grows by one
     /\ ~Refused /\ Len(h) < MaxDepth
     /\ steps' = steps + 1
-    /\ UNCHANGED <<val, scheduled, fnparams>>
+    /\ UNCHANGED <<val, scheduled, fnparams, fnkind>>
     /\ h' = Append(h, [act |-> "step", arg |-> 0, steps |-> steps',
                        val |-> val])
 
@@ -88,7 +96,7 @@ SchedStep(arg) ==
                       ELSE Mul(val[p], Factor(p, a))
                  ELSE val[p]]
     /\ \A p \in IntParams : val'[p][1] > 0      \* intervals stay positive
-    /\ UNCHANGED <<steps, scheduled, fnparams>>
+    /\ UNCHANGED <<steps, scheduled, fnparams, fnkind>>
     /\ h' = Append(h, [act |-> "sched", arg |-> arg, steps |-> steps,
                        val |-> val'])
 
@@ -107,13 +115,13 @@ Restore ==
     /\ ~\E i \in DOMAIN h : h[i].act = "restore"      \* once per behaviour
     /\ steps' = 7
     /\ val' = [p \in PSet |-> IF p \in fnparams THEN val[p] ELSE Restored(p)]
-    /\ UNCHANGED <<scheduled, fnparams>>
+    /\ UNCHANGED <<scheduled, fnparams, fnkind>>
     /\ h' = Append(h, [act |-> "restore", arg |-> 0, steps |-> steps',
                        val |-> val'])
 
 Next == PStep \/ Restore \/ \E a \in Args : SchedStep(a)
 Spec == Init /\ [][Next]_vars
-view == <<steps, val, scheduled, fnparams>>
+view == <<steps, val, scheduled, fnparams, fnkind>>
 
 (* properties *)
 UnscheduledUnchanged ==
@@ -142,6 +150,7 @@ ExpDecayOK ==
 EmitDone ==
     IF Refused \/ Len(h) >= MaxDepth
     THEN PrintT(ToJson([scheduled |-> scheduled, fn |-> fnparams,
+                        fnkind |-> fnkind,
                         refused |-> Refused, h |-> h])) /\ FALSE
     ELSE TRUE
 EmitExp == PrintT(ToJson([exp |-> [cap \in Caps |->
